@@ -32,6 +32,8 @@ type c27Seg struct {
 	Path       string `json:"path"`
 	DurationNs int64  `json:"duration_ns"`
 	Complete   bool   `json:"complete"`
+	// the Write calls of the real writeDuration on the pre-close state of the file (see zz_verif_c27_torn_test.go)
+	Rewrite []c27RW `json:"rewrite,omitempty"`
 }
 
 type c27Rec struct {
@@ -222,8 +224,19 @@ func TestVerifC27Rec(t *testing.T) {
 		t.Fatal(err)
 	}
 	var recs []c27Rec
+	rewriteCalls := map[int]int{} // number of Write calls of one duration rewrite -> segments
 	add := func(name string, partMs, segMs int, withAudio bool, frames int, audioOffMs int64, audioFirst bool) {
 		r, sm, obs := c27Record(t, dir, rnd, name, partMs, segMs, withAudio, frames, audioOffMs, audioFirst)
+		for i := range r.Segments {
+			if s := &r.Segments[i]; s.Complete {
+				ws, err := c27ObserveRewrite(s.Path, filepath.Join(dir, "rewrite.tmp"), time.Duration(s.DurationNs))
+				if err != nil {
+					t.Fatal(err)
+				}
+				s.Rewrite = ws
+				rewriteCalls[len(ws)]++
+			}
+		}
 		recs = append(recs, r)
 		out.Case(cqApp("CRec", c27CoqStream(sm), c27CoqObs(obs)),
 			map[string]any{"recording": name, "stream": sm, "observed": obs, "gop": r.GOP, "audio_offset_ms": audioOffMs, "log": r.Log},
@@ -253,6 +266,7 @@ func TestVerifC27Rec(t *testing.T) {
 	if nseg < 3 {
 		t.Fatalf("only %d segments recorded", nseg)
 	}
+	out.extra["rewrite"] = fmt.Sprintf("Write calls per duration rewrite -> closed segments: %v", rewriteCalls)
 	// segmenter cases: generated sample streams handed to formatFMP4Track.write directly
 	nseg2, nst := 24, 3
 	if os.Getenv("VERIF_TIER") == "thorough" {
